@@ -6,6 +6,7 @@ static uv::Cmd cmds[] = {
 	{"trace", cmd_trace},
 	{"json", cmd_json},
 	{"promela", cmd_promela},
+	{"lua", cmd_lua},
 	{0, 0}
 };
 int main(int argc, char** argv) {
